@@ -260,7 +260,7 @@ func convCase(c *Ctx, t *ctype, how, tok string) {
 	o := runDirect(&sharedBuf, func() error { return app.Run(append([]string{"app"}, argv...)) })
 	c.Count("evaluations", 1)
 	key := fmt.Sprintf("type=%s delivery=%q token=%q", t.name, how, tok)
-	cs := func() Case { return Case{"type": t.name, "how": how, "tok": tok} }
+	cs := func() Case { return Case{"type": t.name, "how": how, "tok": tok, "tok_hex": hx(tok)} }
 	if o.Panicked || len(o.Exits) > 0 || ran > 1 {
 		c.Violation("C13", key, cs(), "Run returns", fmt.Sprintf("panic=%v exits=%v ran=%d", safeSprint(o.PanicVal), o.Exits, ran))
 		return
